@@ -330,7 +330,12 @@ class StateMachine(object):  # pylint: disable=too-many-public-methods
     def action(self, event):
         # (int) -> None
         """Execute the action triggered by event"""
-        action = self.transition_table[(event, self.current_state)]
+        try:
+            action = self.transition_table[(event, self.current_state)]
+        except KeyError:
+            # Combination is not defined by the standard (for example remaining fragments of
+            # outgoing message after association was aborted by the peer): nothing to do
+            return
         self.current_state = action()
 
     def ae_1(self):
